@@ -345,7 +345,8 @@ def ops(draw):
 
 @st.composite
 def rejects(draw):
-    why = draw(st.sampled_from(["letter", "file0", "file256", "elem256", "elem4digit", "bit16", "bit3digit", "bfile4096", "bfile5digit", "io-elem", "s-elem"]))
+    why = draw(st.sampled_from(["letter", "file0", "file256", "elem256", "elem4digit", "bit16", "bit3digit", "bfile4096", "bfile5digit", "io-elem", "s-elem",
+                                "io-file", "io-word", "letter-unicode", "digit-unicode"]))
     ft = draw(st.sampled_from(["N", "B", "F", "L"]))
     f, e = draw(st.integers(1, 255)), draw(st.integers(0, 255))
     if why == "letter":
@@ -366,6 +367,18 @@ def rejects(draw):
         s = f"B{f}/{draw(st.integers(4096, 9999))}"
     elif why == "bfile5digit":
         s = f"B{f}/{draw(st.integers(10000, 99999))}"
+    elif why == "io-file":
+        # the input file is file 1 and the output file is file 0: any other number names a file that does not exist
+        io = draw(st.sampled_from(["I", "O", "i", "o"]))
+        n = draw(st.one_of(st.integers(2, 999), st.just(1 if io in "Oo" else 0)))
+        s = f"{io}{n}:{draw(st.integers(0, 30))}" + draw(st.sampled_from(["", "/3", ".2"]))
+    elif why == "io-word":
+        s = f"{draw(st.sampled_from(['I', 'O']))}:{draw(st.integers(0, 30))}.{draw(st.integers(256, 999))}" + draw(st.sampled_from(["", "/3"]))
+    elif why == "letter-unicode":
+        # letters that only case-fold to a file-type letter are not file types
+        s = f"{draw(st.sampled_from(['\u0130', '\u0131', '\u017f', '\u212a']))}{draw(st.sampled_from(['', '7']))}:{e}"
+    elif why == "digit-unicode":
+        s = f"{ft}{draw(st.sampled_from(['\u0667', '\uff17', '\u0967']))}:{e}"
     elif why == "io-elem":
         s = f"{draw(st.sampled_from(['I', 'O']))}:{draw(st.integers(256, 999))}"
     else:
